@@ -1,43 +1,139 @@
 KERNELS = {'C07_wiring': dict(src='kernels/C07_wiring.cpp', flags=['-DNDEBUG']),
            'C07_leaf_int': dict(src='kernels/C07_leaf_int.cpp', flags=['-DNDEBUG']),
+           # exp2(int) would otherwise be rewritten by clang into ldexp(1.0, n): keep the library call the source makes
            'C07_leaf_flt': dict(src='kernels/C07_leaf_flt.cpp', flags=['-DNDEBUG', '-fno-builtin-exp2', '-fno-builtin-exp2f']),
-           'C07_types': dict(src='kernels/C07_types.cpp', flags=['-DNDEBUG']),
-           'C07_leaf_act': dict(src='kernels/C07_leaf_act.cpp', flags=['-DNDEBUG'])}
+           'C07_leaf_act': dict(src='kernels/C07_leaf_act.cpp', flags=['-DNDEBUG']),
+           'C07_types': dict(src='kernels/C07_types.cpp', flags=['-DNDEBUG'])}
+
+# ---------------------------------------------------------------- (a) wiring per arity
 def _c(e, **kw):
     c = {'MAXE': e, '_unwindset': ['in_data.0:%d' % (e**3 + 2), 'k_fill_u32.0:%d' % (e**3 + 2)]}; c.update(kw); return c
-def _w(name, unwind=8, quick=None, thorough=None, **kw):
-    return dict(name=name, src='harnesses/C07.c', func='h_' + name, kernels=['C07_wiring'], unwind=unwind,
+def _w(name, bounds, unwind=8, quick=None, thorough=None, **kw):
+    return dict(name=name, src='harnesses/C07.c', func='h_' + name, kernels=['C07_wiring'], unwind=unwind, bounds=bounds,
                 quick=quick or [_c(3)], thorough=thorough or [_c(4)], **kw)
+SYM = 'every extent 1..MAXE, all element data (unsigned, 32 bit) and the result index are symbolic'
 HARNESSES = [
- _w('negative3', bounds=''), _w('invert3', bounds=''),
- _w('sub_21', bounds=''), _w('sub_12', bounds=''), _w('sub_22', bounds=''),
- _w('sub_2s', bounds=''), _w('sub_s2', bounds=''), _w('sub_ss', bounds=''),
- _w('where_21s', bounds=''), _w('where_122', bounds=''), _w('where_mixed', bounds=''), _w('clip_sss', bounds=''),
- _w('outer_sub_21', bounds=''), _w('outer_sub_12', bounds=''),
+ _w('negative3', 'unary view::negative on a hybrid 3-d array; ' + SYM), _w('invert3', 'unary view::invert on a hybrid 3-d array; ' + SYM),
+ _w('sub_21', 'view::subtract(2-d, 1-d) hybrid operands incl. non-broadcastable pairs (-> Nothing); ' + SYM),
+ _w('sub_12', 'view::subtract(1-d, 2-d): rank extension of the LEFT operand; ' + SYM),
+ _w('sub_22', 'view::subtract(2-d, 2-d): size-1 axes stretched on either side; ' + SYM),
+ _w('sub_32', 'view::subtract(3-d, 2-d); ' + SYM + ' (quick: extents 1..2, thorough 1..3)', quick=[_c(2)], thorough=[_c(3, _timeout=3600)]),
+ _w('sub_t21', 'view::subtract(view::transpose(2-d), 1-d): a VIEW as operand; ' + SYM), _w('neg_t2', 'view::negative(view::transpose(2-d)); ' + SYM),
+ _w('sub_u8_21', 'view::subtract(uint8 2-d, unsigned 1-d): mixed element types under broadcasting, result unsigned; ' + SYM,
+    quick=[dict(_c(3), _unwindset=_c(3)['_unwindset'] + ['h_sub_u8_21.0:11', 'k_fill_u8.0:11'])], thorough=[dict(_c(4), _unwindset=_c(4)['_unwindset'] + ['h_sub_u8_21.0:18', 'k_fill_u8.0:18'])]),
+ _w('sub_2s', 'view::subtract(2-d, scalar); ' + SYM + ', scalar symbolic'), _w('sub_s2', 'view::subtract(scalar, 2-d); ' + SYM + ', scalar symbolic'),
+ _w('sub_ss', 'view::subtract(scalar, scalar) = scalar_ufunc_t, both symbolic'),
+ _w('where_21s', 'view::where(condition 2-d, x 1-d, y scalar); ' + SYM), _w('where_122', 'view::where(condition 1-d, x 2-d, y 2-d); ' + SYM),
+ _w('where_mixed', 'view::where(condition unsigned[n], x int[n], y long scalar), n 1..MAXE, data/scalar/index symbolic; element type long',
+    quick=[_c(3, KF_C07_WHERE_SCALAR=1)], thorough=[_c(4, KF_C07_WHERE_SCALAR=1)]),
+ _w('clip_sss', 'clip_t functor through view::ufunc on three symbolic scalars (the only instantiable form, see OUTSIDE)'),
+ _w('outer_sub_21', 'view::outer_subtract(2-d, 1-d); ' + SYM), _w('outer_sub_12', 'view::outer_subtract(1-d, 2-d); ' + SYM),
 ]
-def _li(name, **kw):
-    return dict(name='li_' + name, src='harnesses/C07_leaf.c', func='h_li_' + name, kernels=['C07_leaf_int'], unwind=4, quick=[{'LEAF_INT': 1}], thorough=[{'LEAF_INT': 1}], bounds='', **kw)
-HARNESSES += [_li('unary'), _li('addsub'), _li('mul', backend='z3'), _li('divmod', backend='z3'), _li('bitwise'), _li('shift'), _li('cmp'), _li('logical'), _li('minmax')]
-def _lf(name, quick=None, thorough=None, **kw):
-    q = [dict(c, LEAF_FLT=1) for c in (quick or [{}])]; t = [dict(c, LEAF_FLT=1) for c in (thorough or quick or [{}])]
-    return dict(name='lf_' + name, src='harnesses/C07_leaf.c', func='h_lf_' + name, kernels=['C07_leaf_flt'], unwind=4, quick=q, thorough=t, bounds='', backend='kissat', **kw)
-UF = {'LL_UF_FLOAT': 1}
-def _pair(t, u, **kw): return dict({'ONLY_T': t, 'ONLY_U': u}, **kw)
-F32, F64, I32, U32, I64 = 6, 7, 2, 3, 4
+
+# ---------------------------------------------------------------- (b) per-op leaf checks
+I8, I32, U32, I64, U64, F32, F64 = 1, 2, 3, 4, 5, 6, 7
+IPAIRS = [(I8, I8), (I32, I32), (U32, U32), (I64, I64), (U64, U64), (I8, I32), (I32, I8), (I32, U32), (U32, I32), (U32, I64), (I32, I64), (I8, U32), (I64, U64)]
 FPAIRS = [(F32, F32), (F64, F64), (I32, F32), (F32, I32), (F32, F64), (I64, F32), (U32, F64)]
+def _pair(t, u, **kw): return dict({'ONLY_T': t, 'ONLY_U': u}, **kw)
+UF = {'LL_UF_FLOAT': 1}
+IB = ('one symbolic 64-bit pattern per operand, reinterpreted in each dtype: int8, int32, uint32, int64, uint64 and the mixed pairs (i8,i32) (i32,i8) (i32,u32) (u32,i32) '
+      '(u32,i64) (i32,i64) (i8,u32) (i64,u64); left operand a one-element array, right operand a scalar; whole dtype range except where the C++ expression is undefined: ')
+def _li(name, bounds, quick=None, **kw):
+    q = [dict(c, LEAF_INT=1) for c in (quick or [{}])]
+    return dict(name='li_' + name, src='harnesses/C07_leaf.c', func='h_li_' + name, kernels=['C07_leaf_int'], unwind=4, quick=q, thorough=q, bounds=IB + bounds, **kw)
+KFM = {'KF_C07_MINMAX_SCALAR': 1}
 HARNESSES += [
- _lf('arith1'), _lf('sqrec', quick=[UF]), _lf('sqrec_a', quick=[UF]),
- _lf('addsub', quick=[UF, _pair(F32, F32)], thorough=[_pair(t, u) for t, u in FPAIRS]),
- _lf('mul', quick=[UF], thorough=[_pair(F32, F32), _pair(I32, F32), _pair(F64, F64, _timeout=1800)], optional=True),
- _lf('div', quick=[UF], thorough=[_pair(F32, F32), _pair(F64, F64, _timeout=1800)], optional=True),
- _lf('arith_as', quick=[UF]),
- _lf('round'), _lf('pred'), _lf('cmp'), _lf('logical'), _lf('minmax'), _lf('fminmax'), _lf('fmod'), _lf('trans1'), _lf('trans2'),
+ _li('unary', 'negative excludes the most negative value of a signed promoted type; positive, invert, logical_not unrestricted'),
+ _li('addsub', 'signed results must not overflow (exact 128-bit guard); unsigned wrap-around included'),
+ _li('mul', 'unsigned results: full range; SIGNED results: |x|,|y| < 2^7 (larger magnitudes give no verdict: 32x32 signed multiply with overflow obligation > 100 s); one query per dtype pair, z3',
+     quick=[_pair(t, u, MULBITS=7) for t, u in IPAIRS], backend='z3'),
+ _li('square', 'unsigned: full range; signed: |x| < 2^7', quick=[{'MULBITS': 7}], backend='z3'),
+ _li('divmod', 'divide, mod, reciprocal: divisor != 0 and not (most negative / -1)', backend='z3'),
+ _li('bitwise', 'bitwise_and / or / xor: unrestricted'),
+ _li('shift', 'left_shift / right_shift: 0 <= shift < width of the promoted left type; signed left shift only of non-negative values whose result fits'),
+ _li('cmp', 'equal .. greater_equal: unrestricted (mixed signedness follows C: -1 < 1u is false)'),
+ _li('logical', 'logical_and / or / xor: unrestricted'),
+ _li('minmax', 'maximum / minimum with a scalar right operand; region of the pending finding excluded', quick=[KFM]),
+ _li('minmax_aa', 'maximum / minimum with both operands one-element arrays: unrestricted'),
 ]
-def _la(name, **kw):
-    return dict(name='la_' + name, src='harnesses/C07_leaf.c', func='h_la_' + name, kernels=['C07_leaf_act'], unwind=4, quick=[{'LEAF_ACT': 1}], thorough=[{'LEAF_ACT': 1}], bounds='', backend='kissat', **kw)
-HARNESSES += [_la(n) for n in ('relu', 'clamp', 'slope', 'rational', 'exp1', 'exp2', 'exp3')]
-HARNESSES += [dict(name='ty_' + n, src='harnesses/C07_types.c', func='h_ty_' + n, kernels=['C07_types'], unwind=2, quick=[{}], thorough=[{}], bounds='')
-              for n in ('add', 'multiply', 'divide', 'maximum', 'less', 'logical_and', 'bitwise_and', 'left_shift', 'outer_dtype')]
-OUTSIDE = []
-ASSUMPTIONS = []
-CLAIM = dict(text='', note='')
+FB = ('one symbolic 64-bit pattern per operand reinterpreted as float / double (all values incl. NaN, infinities, signed zeros, subnormals) or int; dtypes float, double and the mixed pairs '
+      '(i32,f32) (f32,i32) (f32,f64) (i64,f32) (u32,f64); results compared bit for bit (NaN == NaN), widened exactly to double; ')
+def _lf(name, bounds, quick=None, thorough=None, **kw):
+    q = [dict(c, LEAF_FLT=1) for c in (quick or [{}])]; t = [dict(c, LEAF_FLT=1) for c in (thorough or quick or [{}])]
+    return dict(name='lf_' + name, src='harnesses/C07_leaf.c', func='h_lf_' + name, kernels=['C07_leaf_flt'], unwind=4, quick=q, thorough=t, bounds=FB + bounds, backend='kissat', **kw)
+UFT = 'LL_UF_FLOAT=1: IEEE + - * / are uninterpreted symbols shared by kernel and reference (decides operation, precision, operands and their order; exact rounding not modelled); '
+HARNESSES += [
+ _lf('arith1', 'negative, positive, logical_not: exact'),
+ _lf('sqrec', UFT + 'square, reciprocal on a scalar operand', quick=[UF]), _lf('sqrec_a', UFT + 'square, reciprocal on a one-element array', quick=[UF]),
+ _lf('addsub', UFT + 'plus one bit-exact IEEE query for (f32,f32) in quick and one per dtype pair in thorough; scalar operands (scalar_ufunc_t)',
+     quick=[UF, _pair(F32, F32)], thorough=[UF] + [_pair(t, u) for t, u in FPAIRS]),
+ _lf('mul', UFT + 'thorough adds bit-exact IEEE queries for (f32,f32), (i32,f32) and, optional, (f64,f64)', quick=[UF],
+     thorough=[UF, _pair(F32, F32), _pair(I32, F32), _pair(F64, F64, _timeout=1800)], optional=True),
+ _lf('div', UFT + 'thorough adds bit-exact IEEE queries for (f32,f32) and, optional, (f64,f64)', quick=[UF], thorough=[UF, _pair(F32, F32), _pair(F64, F64, _timeout=1800)], optional=True),
+ _lf('arith_as', UFT + 'add, subtract, multiply, divide with (one-element array, scalar) operands', quick=[UF]),
+ _lf('round', 'fabs, ceil, floor, trunc, rint on float, double, int: exact (CBMC library models)'),
+ _lf('pred', 'isnan, isinf, isfinite, signbit on float, double, int: exact'),
+ _lf('cmp', 'equal .. greater_equal: exact IEEE comparisons'), _lf('logical', 'logical_and / or / xor on floats: exact'),
+ _lf('minmax', 'maximum / minimum (t > u ? t : u, C semantics for NaN) with a scalar right operand (pending finding region excluded) and with two arrays (unrestricted)', quick=[KFM]),
+ _lf('fminmax', 'fmax / fmin: exact (C semantics for NaN), precision selected as <cmath> does'),
+ _lf('fmod', 'fmod: uninterpreted (CBMC exact model: no verdict in 300 s): right function, precision, operands'),
+ _lf('trans1', 'sqrt cbrt exp exp2 expm1 log log2 log10 log1p sin cos tan sinh cosh tanh arcsin arccos arctan arcsinh arccosh arctanh on float, double, int: UNINTERPRETED, i.e. only right function / precision / argument'),
+ _lf('trans2', 'power, arctan2, hypot (7 dtype pairs), ldexp (f32,i32) (f64,i32): UNINTERPRETED, i.e. only right function / precision / arguments in order'),
+]
+AB = 'float and double one-element arrays, operand (all values incl. NaN/inf) and parameters symbolic; compared bit for bit (NaN == NaN) with the documented formula in comparison form; '
+def _la(name, bounds, quick=None, **kw):
+    q = [dict(c, LEAF_ACT=1) for c in (quick or [{}])]
+    return dict(name='la_' + name, src='harnesses/C07_leaf.c', func='h_la_' + name, kernels=['C07_leaf_act'], unwind=4, quick=q, thorough=q, bounds=AB + bounds, backend='kissat', **kw)
+HARNESSES += [
+ _la('relu', 'relu, relu6 on float, double, int: exact'),
+ _la('clamp', 'hardtanh (min <= max), hardshrink / softshrink (lambda >= 0), incl. the default parameters: exact IEEE'),
+ _la('slope', UFT + 'leaky_relu, prelu with a symbolic slope', quick=[UF]), _la('slope_def', 'leaky_relu / prelu with default slopes on float: exact IEEE'),
+ _la('rational', UFT + 'hardswish, softsign', quick=[UF]),
+ _la('exp1', UFT + 'elu, celu, selu (+ defaults); exp uninterpreted', quick=[UF]), _la('exp2', UFT + 'sigmoid, silu, log_sigmoid, tanhshrink; exp/log/tanh uninterpreted', quick=[UF]),
+ _la('exp3', UFT + 'softplus(beta, threshold), mish; exp/log/tanh uninterpreted', quick=[UF]),
+]
+
+# ---------------------------------------------------------------- (c) result element type (type level)
+HARNESSES += [dict(name='ty_' + n, src='harnesses/C07_types.c', func='h_ty_' + n, kernels=['C07_types'], unwind=2,
+                   quick=[KFM] if n == 'maximum' else [{}], thorough=[KFM] if n == 'maximum' else [{}],
+                   bounds='TYPE LEVEL (no symbolic variable): declared element type and type returned by operator() of view::%s for every pair of '
+                          '{int8,uint8,int32,uint32,int64%s}, array (op) array and array (op) scalar, against C\'s usual arithmetic conversions' % (n, '' if n in ('bitwise_and', 'left_shift') else ',float,double'))
+              for n in ('add', 'multiply', 'divide', 'maximum', 'less', 'logical_and', 'bitwise_and', 'left_shift')]
+HARNESSES += [dict(name='ty_outer_dtype', src='harnesses/C07_types.c', func='h_ty_outer_dtype', kernels=['C07_types'], unwind=2, quick=[{}], thorough=[{}],
+                   bounds='TYPE LEVEL: element type of outer_subtract(int8, int32) without and with an explicit dtype (float32, int64, uint8)')]
+
+PENDING_FINDINGS = [
+ dict(id='C07-maximum-minimum-scalar-operand', harness='li_minmax', exclude_define='KF_C07_MINMAX_SCALAR', witness_inputs=['0x400040400000009f', '0x7fffff9f'],
+      what='view::maximum / view::minimum with a SCALAR operand (either side) return the array operand\'s element type and convert the scalar to it: the scalar reaches '
+           'maximum_t/minimum_t as a num-view object and `t > u ? t : u` converts the class operand to the other operand\'s type. '
+           'view::maximum(int8[1]{-97}, int 2147483551)(0) == -97 (C / NumPy: 2147483551); maximum(int[1]{1}, 2.5)(0) == 2 although the view\'s declared element type is double. '
+           'Array (op) array is correct (li_minmax_aa / lf_minmax).'),
+ dict(id='C07-maximum-minimum-scalar-operand', harness='lf_minmax', exclude_define='KF_C07_MINMAX_SCALAR', witness_inputs=['0xffffffffffffffff', '0xbfffffffffffffff'],
+      what='same defect on float dtypes: maximum(float[1], double scalar) / maximum(int[1], float scalar) truncate the scalar to the array element type'),
+ dict(id='C07-maximum-minimum-scalar-operand', harness='ty_maximum', exclude_define='KF_C07_MINMAX_SCALAR', witness_inputs=[],
+      what='type level: operator() of view::maximum(T[1], U scalar) returns T, the declared element type is the C common type'),
+ dict(id='C07-where-scalar-operand', harness='where_mixed', exclude_define='KF_C07_WHERE_SCALAR',
+      witness_inputs=['0x1', '0x0', '0x0', '0x0', '0x0', '0x0', '0x0', '0x2000000000000', '0x0', '0x2', '0x2', '0x0'], witness_config={'MAXE': 3},
+      what='view::where(condition, x int[n], y long scalar): where_t::operator() evaluates `c ? x[i] : y` with y a num-view object, which converts y to int before the cast to the '
+           'element type long: where([0],[0], 0x2000000000000)(0) == 0, NumPy: 562949953421312. Natively also where([0,1],[10,20],2.5) == [2.0, 20.0] (NumPy [2.5, 20.0]).'),
+]
+OUTSIDE = [
+ 'view::clip(array, amin, amax) does not compile for hybrid or fixed-shape operands (view::where is handed a maybe-typed condition; the repo\'s clip tests are disabled in tests/*/CMakeLists.txt); '
+ 'the n-ary view::ufunc(op, a, b, c) fails its n_args static_assert for array operands: ternary wiring is therefore view::where, and clip_t only on scalars',
+ 'wiring with operand dims above 2 (binary) / 3 (unary), extents above 4, view-typed operands, dynamic (std::vector) buffers, compile-time shapes: container kinds are C09',
+ 'every (op x dtype pair) through broadcasting operands: wiring is op-independent code and proved once per arity; leaf checks use one-element operands',
+ 'numerical accuracy of transcendental functions (uninterpreted), exact rounding of float * and / (double: bit-exact query gives no verdict in 300 s; float: thorough tier), fmod (uninterpreted)',
+ 'signed integer multiplication with |operand| >= 2^7 (no verdict: > 100 s per dtype pair), signed overflow / division by zero / out-of-range shifts (undefined in C++)',
+ 'relu(NaN) == 0 in nmtools (PyTorch propagates NaN); maximum/minimum follow `t > u ? t : u` for NaN (np.maximum propagates NaN): the reference here is the C expression',
+ 'int16/uint16 dtypes, long double, complex; array::<ufunc> (eager evaluation: C04/C10)',
+]
+ASSUMPTIONS = ['transcendental libm functions, fmod and (in LL_UF_FLOAT queries) IEEE + - * / are uninterpreted functions shared by the kernel and the reference',
+               'reference for float arithmetic = the bare C++ operator compiled by the same clang pipeline (k_ref_f* kernels contain no nmtools code)']
+CLAIM = dict(
+ text='(a) For hybrid operands with symbolic shapes (dims 1-3, extents 1..3/4), data and result index the solver shows: unary views keep the shape and apply the op per element; '
+      'view::subtract of 2-d/1-d/2-d operands and of a scalar on either side is accepted iff NumPy-broadcastable, has the broadcast shape and element a[bcast i] - b[bcast i] in operand order; '
+      'view::where (three operands) likewise; outer_subtract has shape(a)+shape(b) and element a[i]-b[j]. '
+      '(b) 27 integer functors x 13 dtype pairs and the float/double functors (arithmetic, comparison, logical, rounding, predicates, fmax/fmin, 9 piecewise activations) equal the C expression on all '
+      'inputs of the stated domains; 27 transcendental functors and 9 exp-based activations call the right library function on the right arguments (uninterpreted). '
+      '(c) The declared element type equals C\'s usual arithmetic conversions for the full 7x7 dtype matrix. Two defects found and excluded as pending findings (scalar operand of maximum/minimum/where).',
+ note='Bounded as listed per harness. Trusted: clang-14 -O1 lowering, engine/ll2c.py, CBMC, z3/kissat; validated per run by the differential gate and witness assertions.')
